@@ -4,7 +4,7 @@
    is checked on the real scheduler driven by a virtual clock (harness/props/c17.py). *)
 From Coq Require Import ZArith Bool List.
 Import ListNotations.
-From MV Require Import Ext.RT Ext.RTP Time.Spec Sched.Timing Sched.GenView Gen.SchedulerFns Sched.SchedTie.
+From MV Require Import Ext.RT Ext.RTP Time.Spec Sched.Timing Sched.GenView Gen.SchedulerFns Sched.SchedTie Sched.SetupTie.
 Open Scope Z_scope.
 
 Theorem C17_step_never_begins_early : forall t passed r, 0 < r -> may_begin t passed r = true -> r * (t - 1) < passed.
@@ -42,3 +42,14 @@ Theorem C17_generated_progress_is_capped_by_the_clock : forall st s i k, (1 <= d
   (let w := world_time st i k in if tlt w (new_progress st s i) then w else new_progress st s i).
 Proof. exact tie_advance_progress_rt. Qed.
 Print Assumptions C17_generated_progress_is_capped_by_the_clock.
+
+(* tie to the source: MosaikRemote.set_event as regenerated from mosaik/simmanager.py on every run decides as the model's
+   set_event, and what it queues (through schedule_step) is the event time as a world time of the simulator's depth *)
+Theorem C17_generated_set_event_is_the_model : forall rt t until d, (1 <= d)%nat ->
+  match remote_set_event (match rt with Some _ => true | None => false end) t until (runner_from_world_time d) with
+  | None => set_event rt t until = EventRefused
+  | Some None => set_event rt t until = EventIgnoredWithWarning
+  | Some (Some q) => set_event rt t until = EventScheduled /\ q = t :: repeat 0 (d - 1)
+  end.
+Proof. exact tie_set_event. Qed.
+Print Assumptions C17_generated_set_event_is_the_model.
